@@ -37,6 +37,26 @@ func (a *Act) safety(kind string, instr ssa.Instruction, reach, cond, text strin
 	a.g.oblige(kind, a.srcDetail(instr), reach, cond, a.pos(instr.Pos()), text)
 }
 
+// noAliasOblige: a value that outlives the call (stored, boxed, returned, passed to a retaining callee) must not point
+// into one of the function's []byte parameters
+func (a *Act) noAliasOblige(instr ssa.Instruction, reach string, t types.Type, v string, what string) {
+	g := a.g
+	if len(g.inputBufs) == 0 {
+		return
+	}
+	switch u := t.Underlying().(type) {
+	case *types.Slice:
+		for i, p := range g.inputBufs {
+			g.oblige("noalias", a.srcDetail(instr)+":"+g.inputNames[i], reach, fmt.Sprintf("(or (= (sref %s) 0) (= (sref %s) 0) (not (= (sref %s) (sref %s))))", v, p, v, p), a.pos(instr.Pos()), what+" does not keep a reference into parameter "+g.inputNames[i])
+		}
+	case *types.Struct:
+		s := g.sortOf(t)
+		for i := 0; i < u.NumFields(); i++ {
+			a.noAliasOblige(instr, reach, u.Field(i).Type(), fmt.Sprintf("(%s_f%d %s)", s, i, v), what)
+		}
+	}
+}
+
 // frameOblige: a write to (ref) must target memory allocated during the call or the modifies set.
 func (a *Act) frameOblige(instr ssa.Instruction, reach, ref, what string) {
 	g := a.g
@@ -97,6 +117,7 @@ func (a *Act) exec(instr ssa.Instruction, st *State, reach string, b *ssa.BasicB
 		st.H["MD"] = g.def("HMD", heapSort["MD"], sto(st.H["MD"], m, key, "true"))
 		if slots(mt.Elem()) == 1 && kindOf(mt.Elem()) != "" {
 			k := "M" + kindOf(mt.Elem())
+			a.noAliasOblige(in, reach, mt.Elem(), a.val(in.Value), "map update")
 			st.H[k] = g.def("H"+k, heapSort[k], sto(st.H[k], m, key, a.val(in.Value)))
 		} else {
 			g.note("UNSUPPORTED map with multi-slot values %s (values havoced)", mt)
@@ -116,6 +137,7 @@ func (a *Act) exec(instr ssa.Instruction, st *State, reach string, b *ssa.BasicB
 	case *ssa.ChangeInterface:
 		a.bind(in, a.val(in.X))
 	case *ssa.MakeInterface:
+		a.noAliasOblige(in, reach, in.X.Type(), a.val(in.X), "interface value")
 		a.bind(in, a.makeIface(in.X.Type(), a.val(in.X), st, a.nm(in.Name())))
 	case *ssa.MakeClosure:
 		fn := in.Fn.(*ssa.Function)
@@ -213,6 +235,9 @@ func (a *Act) exec(instr ssa.Instruction, st *State, reach string, b *ssa.BasicB
 				g.oblige("frame", a.srcDetail(in), reach, "false", a.pos(in.Pos()), "store to a package-level variable")
 			}
 		}
+		if al, isAlloc := in.Addr.(*ssa.Alloc); !isAlloc || al.Heap {
+			a.noAliasOblige(in, reach, in.Val.Type(), a.val(in.Val), "store")
+		}
 		a.store(st, in.Val.Type(), fmt.Sprintf("(pref %s)", p), fmt.Sprintf("(poff %s)", p), a.val(in.Val))
 	case *ssa.TypeAssert:
 		a.typeAssert(in, st, reach)
@@ -231,6 +256,9 @@ func (a *Act) exec(instr ssa.Instruction, st *State, reach string, b *ssa.BasicB
 		}
 		a.rets = append(a.rets, retInfo{reach, vs, st.clone(), in})
 		if a.top {
+			for i, r := range in.Results {
+				a.noAliasOblige(in, reach, r.Type(), vs[i], "result")
+			}
 			a.checkPost(a.rets[len(a.rets)-1])
 		}
 	case *ssa.Panic:
